@@ -184,6 +184,36 @@ func (v *V) Build() interface{} {
 	}
 }
 
+// BuildShared is Build, except that specification nodes that are the identical *V (the enumerator
+// shares equal subtrees) become the identical real container: the result is an acyclic graph in
+// which one container may be referenced from several places.
+func (v *V) BuildShared() interface{} { return v.buildShared(map[*V]interface{}{}) }
+
+func (v *V) buildShared(memo map[*V]interface{}) interface{} {
+	if !v.IsContainer() {
+		return v.Native()
+	}
+	if r, ok := memo[v]; ok {
+		return r
+	}
+	var out interface{}
+	if v.K == Lst {
+		l := at.NewList()
+		for _, e := range v.L {
+			l.Add(e.buildShared(memo))
+		}
+		out = l
+	} else {
+		o := at.NewObject()
+		for _, e := range v.KV {
+			o.Set(e.K, e.V.buildShared(memo))
+		}
+		out = o
+	}
+	memo[v] = out
+	return out
+}
+
 func (v *V) BuildList() at.List     { return v.Build().(at.List) }
 func (v *V) BuildObject() at.Object { return v.Build().(at.Object) }
 
